@@ -28,7 +28,7 @@ func (c10) Info(t core.Tier) core.Info {
 		Level: "exploration",
 		Rule: "each case = one generated record schema (nestings of structs, slices, pointers to depth 3; per field one of the tag configurations none / zog / json+form+query+env / zog+json+form / query only / zog+env; IssuePath options on some tests) x 4 failure-biased records x every front end that can express it (Go map, zjson, zhttp JSON, form, query, env) + Validate; plus random schemas of every kind through Go maps. " +
 			"oracle: (1) structural invariants of every returned map: every issue exactly once under the key equal to its Path ($root for the empty path), $first holds exactly one issue which is element 0 of the list under its own path, no empty lists, nil iff no issue; " +
-			"(2) the multiset of (path, code, type) == reference with paths built from the documented key priority (source tag, else zog tag, else schema key; Validate: zog tag, else schema key), '.'-joined, [i] for slice positions, IssuePath override; (3) SanitizeMap / SanitizeList / SanitizeMapAndCollect return the same keys and order carrying only the messages. " +
+			"(2) the multiset of (path, code, type) == reference with paths built from the documented key priority (source tag, else zog tag, else schema key; Validate: zog tag, else schema key), '.'-joined, [i] for slice positions, IssuePath override; (3) SanitizeMap / SanitizeList / SanitizeMapAndCollect return the same keys and order carrying only the messages; (4) half of the random-schema cases are biased towards issues that do not come from a test (Preprocess refusals, coercion, required) next to tests carrying IssuePath; a fifth of the random-schema runs use an execution-wide formatter that rewrites paths (structure only is judged); in half of those cases the maps are kept and looked at again after the next executions (a returned map must stay what it was). " +
 			"non-trivial: map with >= 2 keys besides $first, or a nested / tagged / overridden path; distinct by (schema, record, front end).",
 		Assumptions: commonAssumptions,
 		MinDistinct: 50,
@@ -99,6 +99,32 @@ func mapInvariants(m z.ZogIssueMap) []string {
 	return bad
 }
 
+// mapFingerprint renders keys, order and identity-relevant fields of every issue of the map (including $first).
+func mapFingerprint(m z.ZogIssueMap) string {
+	keys := make([]string, 0, len(m))
+	for k := range m {
+		keys = append(keys, k)
+	}
+	sort.Strings(keys)
+	var sb strings.Builder
+	for _, k := range keys {
+		sb.WriteString(k + "=>")
+		for _, is := range m[k] {
+			if is == nil {
+				sb.WriteString("<nil>;")
+				continue
+			}
+			fmt.Fprintf(&sb, "%s|%s|%s|%s;", is.Path, is.Code, is.Dtype, is.Message)
+		}
+		sb.WriteString(" ")
+	}
+	return sb.String()
+}
+
+// c10KeepMaps: the caller keeps the maps it is given (they are looked at again after later executions), so the monitor
+// must not hand their issues back to the library with SanitizeMapAndCollect.
+var c10KeepMaps bool
+
 func sanitizeChecks(m z.ZogIssueMap) []string {
 	var bad []string
 	if m == nil {
@@ -134,7 +160,9 @@ func sanitizeChecks(m z.ZogIssueMap) []string {
 			bad = append(bad, fmt.Sprintf("SanitizeList(%q): %q vs %q", k, g, want[k]))
 		}
 	}
-	cmp("SanitizeMapAndCollect", z.Issues.SanitizeMapAndCollect(m))
+	if !c10KeepMaps {
+		cmp("SanitizeMapAndCollect", z.Issues.SanitizeMapAndCollect(m))
+	}
 	return bad
 }
 
@@ -372,9 +400,21 @@ func c10Random(c *core.Ctx) {
 		}
 	}
 	n := c02Schema(c.R)
+	wrong := 20
+	if c.Case%2 == 0 {
+		// issues that do not come from a test (Preprocess refusals, coercion, required) next to tests that redirect theirs with IssuePath
+		o := gen.DefaultOpts()
+		o.Pre, o.PreWeight, o.TestOptsPct, o.IssuePathPct, o.FailingTests = true, 14, 85, 70, 5
+		n = gen.Schema(c.R, o)
+		wrong = 35
+	}
 	src := n.Source()
+	c10KeepMaps = c.Case%4 < 2
+	defer func() { c10KeepMaps = false }()
+	var prevMap z.ZogIssueMap
+	var prevPrint string
 	for k := 0; k < 6; k++ {
-		data := gen.ParseInput(c.R, n, gen.InOpts{ValidPct: 40, AbsentPct: 20, WrongPct: 20, AltRep: true})
+		data := gen.ParseInput(c.R, n, gen.InOpts{ValidPct: 40, AbsentPct: 20, WrongPct: wrong, AltRep: true})
 		val := gen.ValueTree(c.R, n, gen.InOpts{ValidPct: 40, AbsentPct: 30}, false)
 		for _, mode := range []ref.Mode{ref.Parse, ref.Validate} {
 			if n.Kind == spec.Pre && mode == ref.Validate {
@@ -384,19 +424,52 @@ func c10Random(c *core.Ctx) {
 			var o *run.Outcome
 			var exp *ref.Result
 			var input any
+			var opts []z.ExecOption
+			rewriting := c.R.Intn(5) == 0
+			if rewriting {
+				// an execution-wide formatter may rewrite the path (it runs for issues that have no message yet): the map is then
+				// keyed by the rewritten paths. Only the structure of the map is judged in these runs.
+				opts = append(opts, z.WithIssueFormatter(func(e *z.ZogIssue, _ z.Ctx) {
+					if e.Path == "" {
+						e.Path = "body"
+					} else if e.Path[0] == '[' {
+						e.Path = "body" + e.Path
+					} else {
+						e.Path = "body." + e.Path
+					}
+					e.Message = "rewritten"
+				}))
+			}
 			if mode == ref.Parse {
-				o = run.Parse(b, data, nil)
+				o = run.Parse(b, data, nil, opts...)
 				exp = ref.Eval(n, &ref.Env{Mode: mode}, data, nil)
 				input = data
 			} else {
-				o = run.Validate(b, val)
+				o = run.Validate(b, val, opts...)
 				exp = ref.Eval(n, &ref.Env{Mode: mode}, nil, val)
 				input = val
 			}
 			c.Eval(1)
 			det := func(extra map[string]any) map[string]any { return describeCase(n, mode, input, extra) }
-			if !c10Check(c, n, o, exp, nil, mode.String(), det) {
+			what := mode.String()
+			if rewriting {
+				exp, what = nil, what+"|path-rewriting-formatter"
+				c.Count("runs_with_path_rewriting_formatter", 1)
+			}
+			if !c10Check(c, n, o, exp, nil, what, det) {
 				return
+			}
+			// a map handed to the caller stays what it was, whatever later executions do
+			if prevMap != nil {
+				if now := mapFingerprint(prevMap); now != prevPrint {
+					c.Violation("issue-map-changed-by-a-later-execution|"+what, det(map[string]any{"earlier_map_when_returned": prevPrint, "earlier_map_now": now, "broken_invariants_now": mapInvariants(prevMap)}))
+					return
+				}
+				c.Count("earlier_maps_rechecked", 1)
+			}
+			prevMap, prevPrint = nil, ""
+			if c10KeepMaps && o.IsMap && o.RawMap != nil {
+				prevMap, prevPrint = o.RawMap, mapFingerprint(o.RawMap)
 			}
 			if len(o.RawMap) > 2 {
 				c.NonTrivial(fpf("%s|%s|%s", src, mode, obs.Render(obs.Norm(input))))
